@@ -104,7 +104,7 @@ pub fn run_script(who: Who, script: &[InOp], sh: &Rc<Shared>, tables: &TablesWea
                     sh.log(Event::VarDropped { who, var: *var });
                 }
             }
-            InOp::ReadOwn | InOp::UnsubscribeSelf | InOp::DisallowOwn | InOp::SubscribeOwn | InOp::DropOwn => {
+            InOp::ReadOwn | InOp::UnsubscribeSelf | InOp::UnsubscribeOther | InOp::DisallowOwn | InOp::SubscribeOwn | InOp::DropOwn => {
                 let Who::Handler(sub) = who else { continue };
                 let info = {
                     let t = t.borrow();
@@ -118,6 +118,19 @@ pub fn run_script(who: Who, script: &[InOp], sh: &Rc<Shared>, tables: &TablesWea
                     InOp::UnsubscribeSelf => {
                         let result = h.unsubscribe(tok);
                         sh.log(Event::Unsub { sub, by: sub, result });
+                    }
+                    InOp::UnsubscribeOther => {
+                        let other = {
+                            let t = t.borrow();
+                            (0..t.subs.len()).rev().find_map(|j| match t.subs[j] {
+                                Some((o, tk)) if j != sub && o == obs => Some((j, tk)),
+                                _ => None,
+                            })
+                        };
+                        if let Some((j, tk)) = other {
+                            let result = h.unsubscribe(tk);
+                            sh.log(Event::Unsub { sub: j, by: sub, result });
+                        }
                     }
                     InOp::DisallowOwn => {
                         h.disallow();
@@ -220,8 +233,28 @@ pub fn set_cutoff(h: &Handle, kind: CutoffKind, key: NodeKey, sh: &Rc<Shared>) {
             CutoffKind::LogEq | CutoffKind::LogMod2 | CutoffKind::LogNever => {
                 let sh = sh.clone();
                 let tok = sh.token();
+                // state captured by value: a boxed cutoff may mutate its captures, and what it
+                // mutates must still be there at the next consultation
+                let install = {
+                    let mut c = sh.cutoff_calls.borrow_mut();
+                    c.push(0);
+                    c.len() - 1
+                };
+                let mut own_count = 0u64;
                 Cutoff::FnBoxed(Box::new(move |a: &T, b: &T| {
                     let _ = &tok;
+                    own_count += 1;
+                    let made = {
+                        let mut c = sh.cutoff_calls.borrow_mut();
+                        c[install] += 1;
+                        c[install]
+                    };
+                    if own_count != made {
+                        sh.closure_problems.borrow_mut().push((
+                            "C06",
+                            format!("the boxed cutoff closure of {key:?} has been consulted {made} times, but the counter it captured by value says {own_count}: its state does not persist between consultations"),
+                        ));
+                    }
                     sh.tick("cutoff");
                     let (old, new) = (a.to_val(), b.to_val());
                     let decision = kind.decide(old, new);
@@ -597,10 +630,23 @@ impl Builder {
             }
             Kind::MapRef(proj, a) => {
                 let proj = *proj;
+                // the projection is a user function too: inside a stabilise it may only run for
+                // nodes some live observer needs (it runs several times per round, legitimately)
+                let (sh1, sh2) = (sh.clone(), sh.clone());
                 match get(*a) {
-                    Handle::P(h) => Handle::I(h.map_ref(move |p| if proj == 0 { &p.0 } else { &p.1 })),
+                    Handle::P(h) => Handle::I(h.map_ref(move |p| {
+                        if sh1.stabilising.get() {
+                            sh1.log(Event::Projection { key });
+                        }
+                        if proj == 0 { &p.0 } else { &p.1 }
+                    })),
                     // a projection of an integer node is the identity projection (stacked map_refs)
-                    Handle::I(h) => Handle::I(h.map_ref(|x| x)),
+                    Handle::I(h) => Handle::I(h.map_ref(move |x| {
+                        if sh2.stabilising.get() {
+                            sh2.log(Event::Projection { key });
+                        }
+                        x
+                    })),
                 }
             }
             Kind::DependOn(a, on) => {
